@@ -1,2 +1,96 @@
-(* Props_C16 — reserved. *)
+(* C16 — Routing a matching request allocates nothing: the statements.
+   PARTIAL by nature: these theorems are about the buffer logic of the matcher (how long
+   params / tsrParams / skipNds get, compared with the capacities of the pooled context);
+   heap allocation itself (escape analysis, sync.Pool retention, the allocator) is measured
+   on the real router by harness/cmd/c16, not modelled.  See docs/C16.md. *)
 From FoxBase Require Import Bytes.
+From FoxRoute Require Import Node Lookup Tree Alloc Alloc2.
+
+(* the full property, visible but NOT provable in a Gallina model (never used as a hypothesis):
+   "heap allocations of ServeHTTP on a matching request in steady state = 0".  Its model-level
+   content is [no_growth_in_steady_state_statement]; the rest is measured. *)
+Definition no_growth_in_steady_state_statement : Prop :=
+  forall r m host path stale1 stale2 caps caps',
+    hw_le (hw_max caps (serve_marks r m host path stale1)) caps' ->
+    grows caps' (serve_marks r m host path stale2) = false.
+
+(* the instrumented lookup returns exactly M1's result *)
+Theorem lookupI_simulates : forall f r m host path lazy ps0 tps0 h,
+  fst (roots_lookupI f r m host path lazy ps0 tps0 h) = roots_lookup f r m host path lazy ps0 tps0.
+Proof. exact Alloc2.lookupI_simulates. Qed.
+Print Assumptions lookupI_simulates.
+
+(* in every context taking part in a lookup, at every moment: len(params), len(tsrParams) <= the most
+   wildcards on a root-to-leaf path; len(skipNds) <= sroots (one entry per alternative per level) *)
+Theorem marks_bounded : forall f r m host path lazy tps0,
+  hw_le (snd (roots_lookupI f r m host path lazy [] tps0 hw0))
+        {| h_ps := wroots r; h_tps := wroots r; h_sks := sroots r |}.
+Proof. exact Alloc2.marks_bounded. Qed.
+Print Assumptions marks_bounded.
+
+Theorem params_bounded : forall f (t : txn) m host path lazy tps0,
+  wroots (t_roots t) <= t_maxparams t ->
+  let h := snd (roots_lookupI f (t_roots t) m host path lazy [] tps0 hw0) in
+  grow_ps (txn_caps t) h = false /\ grow_tps (txn_caps t) h = false.
+Proof. exact Alloc2.params_bounded. Qed.
+Print Assumptions params_bounded.
+
+Example params_bound_attained :
+  wroots (t_roots wide_txn) <= t_maxparams wide_txn /\
+  h_ps (serve_marks (t_roots wide_txn) (S2B "GET") [] (S2B "/x/y/z/w") []) = 3 /\
+  fst (roots_lookupI big_fuel wide_roots (S2B "GET") [] (S2B "/x/y/z/w") false [] [] hw0) =
+    Found (Some (Node (S2B "/{a}/{b}/*{c}") (rt "/{a}/{b}/*{c}") [])) false
+          [(S2B "a", S2B "x"); (S2B "b", S2B "y"); (S2B "c", S2B "z/w")] [].
+Proof. exact Alloc2.params_bound_attained. Qed.
+Print Assumptions params_bound_attained.
+
+Theorem skipped_bounded : forall f (t : txn) m host path lazy tps0,
+  h_sks (snd (roots_lookupI f (t_roots t) m host path lazy [] tps0 hw0)) <= sroots (t_roots t).
+Proof. exact Alloc2.skipped_bounded. Qed.
+Print Assumptions skipped_bounded.
+
+Example skipped_bound_attained :
+  h_sks (serve_marks ladder_roots (S2B "GET") [] (S2B "/a/b/c") []) = 4 /\ sroots ladder_roots = 4 /\ t_depth ladder_txn = 3.
+Proof. exact Alloc2.skipped_bound_attained. Qed.
+Print Assumptions skipped_bound_attained.
+
+(* "skipNds never exceeds its allocateContext capacity (depth)" is false: a cold context grows it *)
+Theorem skipped_bounded_by_depth_refuted :
+  exists (t : txn) m host path,
+    wroots (t_roots t) <= t_maxparams t /\
+    grow_sks (txn_caps t) (serve_marks (t_roots t) m host path []) = true.
+Proof. exact Alloc2.skipped_bounded_by_depth_refuted. Qed.
+Print Assumptions skipped_bounded_by_depth_refuted.
+
+Theorem cold_context_growth_only_skipnds : forall (t : txn) m host path stale,
+  wroots (t_roots t) <= t_maxparams t ->
+  grows (txn_caps t) (serve_marks (t_roots t) m host path stale) =
+  grow_sks (txn_caps t) (serve_marks (t_roots t) m host path stale).
+Proof. exact Alloc2.cold_context_growth_only_skipnds. Qed.
+Print Assumptions cold_context_growth_only_skipnds.
+
+(* the marks do not depend on what an earlier request left in tsrParams *)
+Theorem marks_ignore_stale_tsrparams : forall f r m host path lazy ps0 x y h,
+  snd (roots_lookupI f r m host path lazy ps0 x h) = snd (roots_lookupI f r m host path lazy ps0 y h).
+Proof. exact Alloc2.marks_ignore_stale_tsrparams. Qed.
+Print Assumptions marks_ignore_stale_tsrparams.
+
+(* steady state, full, for all trees and requests *)
+Theorem warm_context_no_growth : no_growth_in_steady_state_statement.
+Proof. exact Alloc2.warm_context_no_growth. Qed.
+Print Assumptions warm_context_no_growth.
+
+Example warm_after_cold_growth :
+  let cold := txn_caps ladder_txn in
+  let h := serve_marks ladder_roots (S2B "GET") [] (S2B "/a/b/c") [] in
+  grows cold h = true /\
+  grows (hw_max cold h) (serve_marks ladder_roots (S2B "GET") [] (S2B "/a/b/c") [(S2B "stale", S2B "entry")]) = false.
+Proof. exact Alloc2.warm_after_cold_growth. Qed.
+Print Assumptions warm_after_cold_growth.
+
+Example tsr_marks_exercised :
+  h_tps (serve_marks tsr_roots (S2B "GET") [] (S2B "/v/x") []) = 1 /\
+  model_outcome (fst (roots_lookupI big_fuel tsr_roots (S2B "GET") [] (S2B "/v/x") false [] [] hw0)) =
+    Some (true, true, S2B "/{a}/x/").
+Proof. exact Alloc2.tsr_marks_exercised. Qed.
+Print Assumptions tsr_marks_exercised.
